@@ -4,7 +4,7 @@ import json
 
 PY = "/venv/bin/python"
 TRUST = ("Trusted: CPython ast parses what the interpreter would run; documented behaviour of the library vocabulary frozen in sa/lib.py; the analyser itself "
-         "(guarded by vacuity floors; by the thorough tier's self-test: 435 variants incl. 76 independently seeded property-breaking changes that must be reported (2 of them, unknown arithmetic / text forms, as exit 2) and 76 independent refactorings that must not be reported (4 end in exit 2 for their own property); "
+         "(guarded by vacuity floors; by the thorough tier's self-test: 482 variants incl. 95 independently seeded property-breaking changes that must be reported (2 of them, unknown arithmetic / text forms, as exit 2) and 95 independent refactorings that must not be reported (5 end in exit 2 for their own property); "
          "and by two false-alarm fuzzers over the current tree). A value the analyser has no model for never yields a VIOLATION: the run ends UNDECIDED (exit 2).")
 
 CHECKS = {
@@ -53,22 +53,22 @@ NOT_YET = {}
 # rules added after the independent seeding rounds (DESIGN.md section 10), appended to the level text
 ADDENDA = {
  "C01": " PREMISE-C04: the signer summary used for every frame is re-derived with C04's rules on the current tree; what C04 cannot discharge is inherited. R1.1 accepts tests of the writer and handing it to a helper whose parameter is only tested/closed. A1 (login reply >= 12 bytes) is an explicit premise of the runs.",
- "C03": " R3.6: every reader.read(n) asks for a constant n >= the longest reply of the protocol (reference data), so no reply tail is taken for the next login reply. PREMISE-C04 as in C01. R3.3 also reports a class-level container mutated through instances (state shared by all clients).",
+ "C03": " R3.6: every reader.read(n) asks for a constant n >= the longest reply of the protocol (reference data), so no reply tail is taken for the next login reply. PREMISE-C04 as in C01. R3.3 also reports a class-level container mutated through instances (state shared by all clients). R3.7: the configuration sweep (device id/key/ip/port stored once, unchanged, from the same-named parameter) is a rule of C03 too.",
  "C06": " R6.5: the builder keeps no memory between datagrams (no store outliving the call, no global, no mutated module-level container). R6.1 compares the gate strictly only when it is a boolean combination of tests of the length / the leading digits against constants; Enum(len(m)) under try/except and startswith(prefix) are canonicalised to those tests; any other conjunct -> exit 2.",
  "C09": " PREMISE-C04 as in C01. len() of a slice of a reply that may be shorter is conditional, so tests on a truncated login reply are reachable.",
  "C02": " PREMISE-C04 as in C01. The schedule start/end fields are additionally held to C11's encoder normal form (today's LOCAL date ++ HH:MM parsed with the same directives). R2.7: with days given as a sequence no command frame is written for a duplicate-bearing sequence and a refusal before the command frame exists (guards evaluated three-valued under the facts empty / duplicate).",
  "C05": " R5.7: on not-ON paths no guard (of a return or a raise) reads the bytes of the fields that are reported as zero in that state. R5.8: the trigger of every raising path reads only bytes of the delivered class's own fields.",
- "C07": " R7.5 (shared with C05 R5.7): a not-ON broadcast reaches the callback whatever the bytes of the normalised fields are. R7.6 (structural, conditional): a coroutine scheduled as a task that calls the builder / callback inside a loop must guard that call with try/except Exception inside the loop. The protocol factory is judged by what calling it produces.",
- "C10": " R10.5 (structural): nothing on the listing path is memoised. The record loop is accepted as 32-nibble chunks or as area[off:off+32] over range(0, len(area), 32). R10.1 accepts the same chunks read from an in-memory stream / batched(); without a record loop it is undecided, not violated.",
+ "C07": " R7.5 (shared with C05 R5.7): a not-ON broadcast reaches the callback whatever the bytes of the normalised fields are. R7.6 (structural, conditional): a coroutine scheduled as a task that calls the builder / callback inside a loop must guard that call with try/except Exception inside the loop. The protocol factory is judged by what calling it produces. R7.7 (shared with C17 R17.7): start() on an instance with history still binds every port. R7.3: close()/abort() calls of the bridge module are reachable only from stop, and stop's interpreted paths close every registered transport (no name matching).",
+ "C10": " R10.5 (structural): nothing on the listing path is memoised. The record loop is accepted as 32-nibble chunks or as area[off:off+32] over range(0, len(area), 32). R10.1 accepts the same chunks read from an in-memory stream / batched(); without a record loop it is undecided, not violated. R10.4 also requires that an empty day collection reaches the command frame with the non-recurring constant (guards evaluated under 'the collection is empty'). Regex findall of '.{1,32}' and bytes(islice(iter(hex), 32)) are the same chunking.",
  "C11": " R11.5 (structural): neither function is memoised.",
  "C12": " R12.5: encoder and decoder are not memoised and the decoder's result set is created inside the call. reduce(or_, bits, 0) over distinct powers of two from a duplicate-free collection and pack('B', x).hex() are canonicalised (lemma R12.4); 'guarded by' is decided by evaluating guards under the facts empty / duplicate.",
- "C13": " Three algorithms are recognised for the chosen day, each with a stated one-line lemma: sorted + first strictly later else first; forward walk (w+k)%7 for k=1..7; min by key (d-w-1)%7.",
+ "C13": " Three algorithms are recognised for the chosen day, each with a stated one-line lemma: sorted + first strictly later else first; forward walk (w+k)%7 for k=1..7; min by key (d-w-1)%7. R13.7 (structural): the days argument is not mutated in place.",
  "C14": " R14.2: the duration a schedule object reports is calc_duration of its own times and nothing on the way is memoised. Accepted forms: ite(E<S, E+1d, E)-S; (E-S)+1d under (E-S)<0; (E-S)%1d; minutes arithmetic (Em-Sm)%1440 rendered H:MM:00. A deviating part of a recognised form is a violation; a foreign arithmetic is answered 'cannot decide' (exit 2). R14.3 (interval analysis, necessary condition): a duration built from split/int parts has a minute count in [0,1440) - reported only when the bound is attained.",
- "C04": " x%256, x//256, x&255, x>>8 of a CRC and crc_hqx chained over pieces are canonicalised to the same term; arithmetic that does not normalise is answered 'cannot decide' (exit 2). A continued CRC whose carried value is written `crc or K` is reported (lemma: crc_hqx reaches 0 and is injective in its initial value).",
+ "C04": " x%256, x//256, x&255, x>>8 of a CRC and crc_hqx chained over pieces are canonicalised to the same term; arithmetic that does not normalise is answered 'cannot decide' (exit 2). A continued CRC whose carried value is written `crc or K` is reported (lemma: crc_hqx reaches 0 and is injective in its initial value). Byte shuffles written with integer arithmetic (<<, | of disjoint bit ranges, // and % of 256*hi+lo, '%04x') are canonicalised by exact identities on non-negative integers.",
  "C15": " R15.7 decides that min and max of the temperature range are updated independently for a numeric key[2:4]. R15.9 (structural): no table read by the remote's methods is a class-level container mutated through instances.",
- "C16": " PREMISE-C04 as in C01. R16.6: build_command/build_swing_command store nothing on the remote (no memory between calls). R16.3 also reports a swing command on a path that never tests update_state.",
- "C19": " Class-level one-shot iterators consumed in __post_init__ guards are reported (engine hazard ONESHOT); the enum __init__ idiom is read like __new__.",
- "C17": " R17.6: endpoints are bound exclusively (no reuse_port/reuse_address/pre-bound socket), so binding an occupied port fails and a second start cannot orphan transports. R17.7: start() on an instance with history (unknown content of _transports) still binds every port unless the registered transport is known to be open. R17.2's port-loop clause is read from the interpreted paths.",
+ "C16": " PREMISE-C04 as in C01. R16.6: build_command/build_swing_command store nothing on the remote (no memory between calls). R16.3 also reports a swing command on a path that never tests update_state. PREMISE-C15: C15's rules are re-run and their violations inherited (the IR key is how the request reaches the wire).",
+ "C19": " Class-level one-shot iterators consumed in __post_init__ guards are reported (engine hazard ONESHOT); the enum __init__ idiom is read like __new__. enum.Flag classes; descriptors in an enum body (property(attrgetter(...))) are accessors, not members.",
+ "C17": " R17.6: endpoints are bound exclusively (no reuse_port/reuse_address/pre-bound socket), so binding an occupied port fails and a second start cannot orphan transports. R17.7: start() on an instance with history (unknown content of _transports) still binds every port unless the registered transport is known to be open. R17.2's port-loop clause is read from the interpreted paths. R17.8 (structural): no asyncio.gather without return_exceptions=True over coroutines that create datagram endpoints.",
 }
 
 def main():
